@@ -204,6 +204,10 @@ def rule_d(ctx):
                 found.append((type(x.op), norm(x.right)))
             elif isinstance(x, ast.Compare) and norm(x.left) == "self.img" and len(x.ops) == 1:
                 found.append((type(x.ops[0]), norm(x.comparators[0])))
+            elif isinstance(x, ast.Compare) and norm(x.comparators[0]) == "self.img" and len(x.ops) == 1:
+                # canonical orientation: `self.img > y` is stored as `y < self.img`
+                flip = {ast.Lt: ast.Gt, ast.LtE: ast.GtE, ast.Gt: ast.Lt, ast.GtE: ast.LtE}
+                found.append((flip.get(type(x.ops[0]), type(x.ops[0])), norm(x.left)))
         ok = bool(found) and all(o is op for o, _ in found) and {r for _, r in found} <= {f"{other}.img", other} and f"{other}.img" in {r for _, r in found}
         ctx.ob(R, g.qname, f"{name} applies `{op.__name__}` to self.img and the other operand's data", ok, str([(o.__name__, r) for o, r in found]), g.node)
     rm = m.cls(IMG, "Image")
